@@ -769,7 +769,10 @@ def report_static(ctx, bad, byid, res, corpus=False):
     for n in bad:
         groups.setdefault(n // 64, []).append(n % 64)
     recheck = []
-    for cid, masks in sorted(groups.items(), key=lambda kv: (len(byid[kv[0]]["src"]), kv[0])):   # simplest program first
+    def simplest(kv):     # accepted programs first, then the shortest text
+        runs = {r["m"]: r for r in res[kv[0]]["runs"]}
+        return (all(runs[m]["static"] for m in kv[1]), len(byid[kv[0]]["src"]), kv[0])
+    for cid, masks in sorted(groups.items(), key=simplest):
         c = dict(byid[cid])
         c["masks"] = masks
         recheck.append(c)
@@ -944,16 +947,16 @@ def recursion_part(ctx, rnd):
         m = 63 if g["rec"] else 31
         cases.append({"id": i + 1, "src": render_graph(g), "mode": "file", "opts": O(m).rec(), "want": []})
     res = run_eval(ctx, cases, "rec")
-    nbad, nfail = 0, 0
-    for g, c in zip(graphs, cases):
-        d = compare_rec(g, res[c["id"]])
-        if g["fail"]:
-            nfail += 1
-        if d:
-            r2 = run_eval(ctx, [c], "rec-re")[c["id"]]
-            if compare_rec(g, r2) != d:
+    nfail = sum(1 for g in graphs if g["fail"])
+    div = [(g, c, compare_rec(g, res[c["id"]])) for g, c in zip(graphs, cases)]
+    div = [x for x in div if x[2]]
+    nbad = len(div)
+    if div:
+        res2 = run_eval(ctx, [c for _, c, _ in div], "rec-re")          # re-execute the divergent runs
+        div.sort(key=lambda x: (len(x[1]["src"]), x[1]["id"]))           # simplest program first
+        for g, c, d in div:
+            if compare_rec(g, res2[c["id"]]) != d:
                 raise vlib.MachineryError("recursion case not reproducible: %s" % d)
-            nbad += 1
             # signature: the option and the kind of the call site whose target is already active (none: no re-entry in the model)
             ctx.violation("recursion:%s/%s" % ("on" if g["rec"] else "off", g["failkind"] if g["fail"] else "no-reentry"),
                           "%s | graph %s | %s" % (d, json.dumps(g["edges"]), c["src"].replace("\n", "; ")[:400]),
